@@ -253,22 +253,54 @@ func checkCmd(args []string) {
 	}
 	sort.Strings(ledgerNames)
 	discharged := 0
+	// functions the engine could not process: one violation per function
+	brokenFunc := map[string]bool{}
+	for _, fe := range funcs {
+		if fe.Error != "" {
+			brokenFunc[fe.Func] = true
+			viols = append(viols, violation{fe.Func + "#engine:function-verifiable", "the function can no longer be brought under its contract: " + fe.Error, nil})
+		}
+	}
+	if len(engineErrs) > 0 && len(funcs) == 0 {
+		viols = append(viols, violation{*prop + "#engine:load", strings.Join(engineErrs, "; "), nil})
+	}
 	for _, n := range ledgerNames {
+		fn := strings.SplitN(n, "#", 2)[0]
 		switch {
 		case !seen[n]:
-			viols = append(viols, violation{n, "obligation can no longer be generated from the current source (function, loop or expression gone, or the engine refused the function: " + strings.Join(engineErrs, "; ") + ")", nil})
+			if brokenFunc[fn] || len(funcs) == 0 {
+				continue // reported once above
+			}
+			if isSafetyName(n) {
+				// safety obligations are named after expression text; the claim is per function:
+				// every safety obligation generated from the current text must discharge (below)
+				discharged++
+				continue
+			}
+			viols = append(viols, violation{n, "obligation can no longer be generated from the current source (contract clause, loop or function gone)", nil})
 		case failed[n] != nil:
 			viols = append(viols, violation{n, "solver answer: " + failed[n].Status, failed[n]})
 		default:
 			discharged++
 		}
 	}
+	// safety obligations with new names (edited expressions) in functions of the ledger
+	ledgerFuncs := map[string]bool{}
+	for _, n := range ledgerNames {
+		ledgerFuncs[strings.SplitN(n, "#", 2)[0]] = true
+	}
+	for n, o := range failed {
+		if !inLedger[n] && isSafetyName(n) && ledgerFuncs[strings.SplitN(n, "#", 2)[0]] {
+			viols = append(viols, violation{n, "run-time safety obligation of a function whose safety obligations all discharged on the pinned tree; solver answer: " + o.Status, o})
+		}
+	}
+	sort.Slice(viols, func(i, j int) bool { return viols[i].Obl < viols[j].Obl })
 	for _, v := range vacuous {
 		viols = append(viols, violation{v, "vacuity: the assumptions at this point are contradictory", nil})
 	}
 	// undecided (not in the ledger): stderr only
 	for n, ok := range okNames {
-		if !ok && !inLedger[n] {
+		if !ok && !inLedger[n] && !isSafetyName(n) {
 			fmt.Fprintf(os.Stderr, "UNDECIDED (not in ledger) %s: %s\n", n, failed[n].Status)
 		}
 	}
@@ -431,6 +463,11 @@ func checkCmd(args []string) {
 		fmt.Println(l)
 	}
 	os.Exit(exit)
+}
+
+func isSafetyName(n string) bool {
+	p := strings.SplitN(n, "#", 2)
+	return len(p) == 2 && (strings.HasPrefix(p[1], "safe-") || strings.HasPrefix(p[1], "no-panic"))
 }
 
 func sharedSpecs(root string) []string {
